@@ -1,84 +1,10 @@
-//! C03: bytes -> history of the broker simulator over the widest op alphabet; oracle: no panic
-//! in any router turn, slab alignment, quiescence, liveness probe (as props/c03.rs).
+//! libFuzzer front end of the `router_events` target; decoding and oracle live in the harness library
+//! (harness/src/fuzzdec.rs) so that a crashing input can be replayed through `vcheck --replay`.
 #![no_main]
-use arbitrary::Unstructured;
 use libfuzzer_sys::fuzz_target;
-use vcheck::brokersim::observe::Flags;
-use vcheck::brokersim::run::run_history;
-use vcheck::brokersim::types::*;
-use vcheck::engine::Obs;
-
-const TOPICS: &[&str] = &["a", "a/b", "b", "é/x", "$SYS/x", "", "a/+", "#", "😀"];
-const FILTERS: &[&str] = &["a", "a/+", "a/#", "#", "+", "$share/g1/a/#", "$share/g2/#", "$share/", "$x", "", "é/+", "a/#/b"];
-
-fn op(u: &mut Unstructured, n: usize) -> arbitrary::Result<Op> {
-    let c = u.int_in_range(0..=n - 1)?;
-    Ok(match u.int_in_range(0u8..=23)? {
-        0 => Op::Connect { c, clean: u.arbitrary()?, will: if u.arbitrary()? { Some(Will { topic: u.choose(TOPICS)?.to_string(), qos: u.int_in_range(0..=2)?, retain: u.arbitrary()?, size: 6 }) } else { None }, alias_max: if u.arbitrary()? { 10 } else { 0 } },
-        1 | 2 => Op::Subscribe { c, filters: vec![(u.choose(FILTERS)?.to_string(), u.int_in_range(0..=2)?)], sub_id: if u.arbitrary()? { Some(u.int_in_range(0..=3)?) } else { None }, notify: u.arbitrary()? },
-        3 => Op::Unsubscribe { c, filters: vec![u.choose(FILTERS)?.to_string()], notify: u.arbitrary()? },
-        4..=7 => Op::Publish { c, topic: u.choose(TOPICS)?.to_string(), qos: u.int_in_range(0..=2)?, retain: u.arbitrary()?, size: u.int_in_range(0..=40)?, props: None, notify: u.arbitrary()? },
-        8 => Op::Release { c, notify: true },
-        9 => Op::Disconnect { c, notify: true },
-        10 => Op::DropLink { c },
-        11 => Op::Turn { n: u.int_in_range(1..=3)? },
-        12 => Op::Drain { c },
-        13 => Op::Ack { c, n: u.int_in_range(1..=200)? },
-        14 => Op::Ready { c },
-        15 => Op::Settle,
-        16 => Op::PublishWill { c },
-        17 => Op::Raw { c, pkt: match u.int_in_range(0u8..=6)? {
-            0 => Raw::PubAck(u.int_in_range(0..=101)?),
-            1 => Raw::PubRec(u.int_in_range(0..=101)?),
-            2 => Raw::PubRel(u.int_in_range(0..=101)?),
-            3 => Raw::PubComp(u.int_in_range(0..=101)?),
-            4 => {
-                let n = u.int_in_range(0..=6)?;
-                Raw::PublishBytes { topic: u.bytes(n)?.to_vec(), qos: u.int_in_range(0..=2)?, retain: u.arbitrary()? }
-            }
-            5 => {
-                let n = u.int_in_range(0..=8)?;
-                Raw::Subscribe { filter: String::from_utf8_lossy(u.bytes(n)?).to_string(), qos: u.int_in_range(0..=2)?, sub_id: None }
-            }
-            _ => Raw::Connect,
-        }, notify: true },
-        18 => Op::Stale { id: *u.choose(&[0usize, 1, 2, 3, 7, 1_000_000, usize::MAX])?, kind: u.int_in_range(0..=3)? },
-        19 => Op::Zombie { c, kind: u.int_in_range(0..=2)? },
-        20 => Op::Tick { alerts: u.arbitrary()? },
-        21 => Op::NewMeter { keep: u.arbitrary()? },
-        22 => Op::Shadow { c, filter: u.choose(FILTERS)?.to_string() },
-        _ => Op::Notify { c },
-    })
-}
 
 fuzz_target!(|data: &[u8]| {
-    let mut u = Unstructured::new(data);
-    let n = 3usize;
-    let cfg = Cfg {
-        seg_size: *u.choose(&[1024usize, 2048, 65536]).unwrap_or(&1024),
-        seg_count: u.int_in_range(1..=4).unwrap_or(2),
-        max_out: *u.choose(&[1u64, 2, 5, 200]).unwrap_or(&200),
-        max_conn: 8,
-        strategy: u.int_in_range(0..=2).unwrap_or(0),
-    };
-    let clients = (0..n)
-        .map(|i| ClientSpec { id: format!("c{i}"), auto_ack: i != 1, auto_ready: i != 2, v5: i == 0, dynamic_filters: false })
-        .collect();
-    let mut ops = vec![
-        Op::Connect { c: 0, clean: u.arbitrary().unwrap_or(true), will: None, alias_max: 0 },
-        Op::Connect { c: 1, clean: u.arbitrary().unwrap_or(true), will: None, alias_max: 0 },
-        Op::Turn { n: 1 },
-    ];
-    while !u.is_empty() && ops.len() < 300 {
-        match op(&mut u, n) {
-            Ok(o) => ops.push(o),
-            Err(_) => break,
-        }
-    }
-    let h = Hist { cfg, clients, ops };
-    let flags = Flags { slabs: true, liveness_probe: true, witnesses: Some(vec![]), ..Flags::default() };
-    let mut obs = Obs::default();
-    if let Err(f) = run_history(&h, &flags, &mut obs) {
-        panic!("C03 violated: {} :: {} :: {}", f.signature, f.detail, serde_json::to_string(&h).unwrap_or_default());
+    if let Err(f) = vcheck::fuzzdec::run_target("router_events", data) {
+        panic!("property violated: {} :: {}", f.signature, f.detail);
     }
 });
